@@ -9,17 +9,11 @@ import (
 	"github.com/aclements/go-moremath/internal/vx"
 )
 
-// vxNativeLOESSConcurrent (native replay only): one fitted curve evaluated from 8 goroutines at
-// different points returns, bit for bit, what sequential evaluation returns. On code that keeps no
-// state between evaluations this cannot fail; with scratch memory shared by the evaluations it
-// fails with overwhelming probability (200000 overlapping evaluations).
-func vxNativeLOESSConcurrent(degree int) bool {
-	xs := []float64{3, 0, 1, 4, 2, 5, 7, 6, 9, 8, 3.5, 0.5}
-	ys := make([]float64, len(xs))
-	for i, x := range xs {
-		ys[i] = math.Sin(x) + 0.1*x*x
-	}
-	f := LOESS(xs, ys, degree, 0.6)
+// vxConcurrentSame (native replay only): f evaluated from 8 goroutines at different points returns,
+// bit for bit, what sequential evaluation returns. On code that keeps no state between evaluations
+// this cannot fail; with scratch memory shared by the evaluations it fails with overwhelming
+// probability (200000 overlapping evaluations).
+func vxConcurrentSame(f func(float64) float64) bool {
 	const pts = 64
 	want := make([]float64, pts)
 	q := func(i int) float64 { return 9.5 * float64(i) / pts }
@@ -48,6 +42,56 @@ func vxNativeLOESSConcurrent(degree int) bool {
 		}
 	}
 	return true
+}
+
+func vxNativeData() (xs, ys []float64) {
+	xs = []float64{3, 0, 1, 4, 2, 5, 7, 6, 9, 8, 3.5, 0.5}
+	ys = make([]float64, len(xs))
+	for i, x := range xs {
+		ys[i] = math.Sin(x) + 0.1*x*x
+	}
+	return
+}
+
+func vxNativeLOESSConcurrent(degree int) bool {
+	xs, ys := vxNativeData()
+	return vxConcurrentSame(LOESS(xs, ys, degree, 0.6))
+}
+
+// VxC20_PolyF: the F of a PolynomialRegressionResult is a pure function of x (no store into memory
+// that outlives the evaluation, same answer whatever was evaluated before), and the regression
+// leaves xs, ys and weights alone.
+//
+//vx:mode R
+//vx:solver z3
+//vx:stub fit.LinearLeastSquares = vxLLSCapture
+//vx:bound degree 0..4; 2 data points with optional weights; any real x1, x2; LinearLeastSquares replaced by "returns an arbitrary coefficient vector"
+//vx:outside stores made inside gonum (LinearLeastSquares is stubbed)
+func VxC20_PolyF() {
+	d := vx.Choose("degree", 0, 4)
+	if !vx.Engine() {
+		xs, ys := vxNativeData()
+		ok := vxConcurrentSame(PolynomialRegression(xs, ys, nil, d).F)
+		vx.Assert(ok, "evaluating F stores into no memory shared between evaluations (race-free)")
+		vx.Assert(ok, "F is deterministic whatever was evaluated before")
+		return
+	}
+	xs, ys := vx.Floats("x", 2), vx.Floats("y", 2)
+	var ws []float64
+	if vx.Choose("weighted", 0, 1) == 1 {
+		ws = vx.Floats("w", 2)
+	}
+	x1, x2 := vx.Float("x1"), vx.Float("x2")
+	vx.Freeze(xs, ys, ws)
+	r := PolynomialRegression(xs, ys, ws, d)
+	vx.Epoch()
+	a := r.F(x1)
+	shared := vx.NoSharedWrites()
+	r.F(x2)
+	c := r.F(x1)
+	vx.Thaw()
+	vx.Assert(vx.Close(a, c, 0, 0), "F is deterministic whatever was evaluated before")
+	vx.Assert(shared, "evaluating F stores into no memory shared between evaluations (race-free)")
 }
 
 // VxC20_LOESS: the curve returned by LOESS is a pure function: evaluating it stores into no memory
